@@ -32,6 +32,12 @@ REJECT = {
     "return-then-code": "def f(x):\n    return x\n    x = 1\n",
     "nonliteral-float": "def f(x):\n    return float('nan')\n",
     "dict-iteration": "def f(d):\n    for k in d:\n        return k\n    return 0\n",
+    "with-unlisted-lock": "def f(x):\n    with lock:\n        y = x\n    return y\n",
+    "kwonly-unlisted": "def f(x, *, k=1):\n    return x\n",
+    "zip-three": "def f(xs):\n    return len(list(zip(xs, xs, xs)))\n",
+    "zip-strict": "def f(xs):\n    return len(list(zip(xs, xs, strict=True)))\n",
+    "optional-in-compare-chain": "def f(o):\n    if 0 <= 1 <= o:\n        return 1\n    return 0\n",
+    "optional-arith": "def f(o):\n    return o + 1\n",
 }
 ACCEPT = {
     "guard-chain": "def f(x):\n    if x < 0:\n        raise ValueError('neg')\n    return x // 2 + x % 3\n",
@@ -39,6 +45,9 @@ ACCEPT = {
     "exists": "def f(xs):\n    for a in xs:\n        if a == 3:\n            return True\n    return False\n",
     "comprehension": "def f(xs):\n    return sum(a + 1 for a in xs if a > 0)\n",
     "slice-index": "def f(xs):\n    return xs[-1] + len(xs[1:3])\n",
+    "zip": "def f(xs):\n    return sum(a * b for a, b in zip(xs, xs[1:]))\n",
+    "dictcomp-partial-value": "def f(xs):\n    d = {a: 6 // a for a in xs}\n    return len(d)\n",
+    "optional-number-ordering": "def f(o):\n    if not 1 <= o:\n        raise ValueError('small')\n    return 1\n",
 }
 
 
@@ -52,7 +61,7 @@ def run(name, src, params, returns=Z):
 
 def params_of(src):
     first = src.split("(", 1)[1].split(")", 1)[0].split(",")[0].strip()
-    ty = {"x": Z, "xs": List(Z), "d": tr.Dict(Z, Z)}[first]
+    ty = {"x": Z, "xs": List(Z), "d": tr.Dict(Z, Z), "o": Opt(Z)}[first]
     return [(first, first, ty)]
 
 
@@ -73,4 +82,139 @@ for name, src in ACCEPT.items():
     except tr.Untranslatable as e:
         print(f"NOT ACCEPTED {name}: {e}")
         bad += 1
+
+# ---- C06/C07 additions: fragment addressing (With= / Else / Try / Handler / after=Expr=… / until / whole / tail / with_test),
+#      list.extend, self.a.b state fields, kind="sync_skeleton".  Each case: (source, function entry, must be accepted?)
+MON = ("class M:\n    def run(self, xs):\n        self._lock.acquire()\n        self._n = self._n + 1\n        if self._n == 2:\n            self._lock.release()\n"
+       "            try:\n                self._r = self.f(xs)\n            except Exception as e:\n                self._r = 0\n        else:\n            y = 5\n            self._lock.release()\n"
+       "        with self._lock:\n            self._xs.extend(xs)\n            self.c.d = self.c.d + 1\n        if y > 0:\n            raise ValueError('x')\n        return y\n")
+MON_ALIAS = MON.replace("        with self._lock:\n", "        lk = self._lock\n        with self._lock:\n")
+MST = dict(var="st", ty=tr.Nom("St", "st"), ctor="mkSt", fields=[("_n", "s_n", Z), ("_r", "s_r", Z), ("_xs", "s_xs", List(Z)), ("c.d", "s_cd", Z)])
+SYNC = dict(objects={"self._lock": "L"}, calls={"self.f": "call-f"})
+
+
+def mon(fragment=None, **kw):
+    d = dict(py="M.run", gen="g", params=kw.pop("params", []), returns=kw.pop("returns", tr.UNIT), **kw)
+    if fragment is not None:
+        d["fragment"] = fragment
+    return d
+
+
+CASES = {
+    "frag-after-text+with_test": (MON, mon(dict(path=[], after="Expr=self._lock.acquire()", count=1, with_test=True, outputs=[]), state=MST, returns=BOOL), True),
+    "frag-after-text-missing": (MON, mon(dict(path=[], after="Expr=self._lock.acquire(True)", count=1, with_test=True, outputs=[]), state=MST, returns=BOOL), False),
+    "frag-until-mismatch": (MON, mon(dict(path=[], after="Expr=self._lock.acquire()", count=1, until="With=self._lock", outputs=[]), state=MST), False),
+    "frag-with-body-whole": (MON, mon(dict(path=["With=self._lock"], whole=True, outputs=[]), state=MST, params=[("xs", "xs", List(Z))]), True),
+    "frag-with-other-lock": (MON, mon(dict(path=["With=self._other"], whole=True, outputs=[]), state=MST, params=[("xs", "xs", List(Z))]), False),
+    "frag-else": (MON, mon(dict(path=["Else:0"], count=1, until="Expr=self._lock.release()", outputs=["y"]), returns=Z), True),
+    "frag-handler": (MON, mon(dict(path=["If:0", "Handler"], whole=True, outputs=[]), state=MST), True),
+    "frag-tail": (MON, mon(dict(path=[], after="With=self._lock", tail=True, outputs=[]), params=[("y", "y", Z)], returns=Z), True),
+    "frag-tail-with-outputs": (MON, mon(dict(path=[], after="With=self._lock", tail=True, outputs=["y"]), params=[("y", "y", Z)], returns=Z), False),
+    "frag-whole-contains-return": (MON, mon(dict(path=[], whole=True, outputs=[]), state=MST), False),
+    "skeleton": (MON, mon(kind="sync_skeleton", sync=SYNC), True),
+    "skeleton-alias-escapes": (MON_ALIAS, mon(kind="sync_skeleton", sync=SYNC), False),
+    "skeleton-with-unlisted": (MON, mon(kind="sync_skeleton", sync=dict(objects={}, calls={})), False),
+}
+for name, (src, entry, ok) in CASES.items():
+    d = WORK / ("c06_" + name.replace("+", "_"))
+    d.mkdir(parents=True, exist_ok=True)
+    (d / "m.py").write_text(src)
+    try:
+        g = tr.translate_spec(dict(id="T", source="m.py", module="TGen", link="-", functions=[entry]), d)
+        print(f"accepted  {name}" if ok else f"NOT REJECTED {name}:\n{g.text}")
+        bad += 0 if ok else 1
+    except tr.Untranslatable as e:
+        print(f"rejected  {name:28s} {e.reason[:90]}" if not ok else f"NOT ACCEPTED {name}: {e}")
+        bad += 1 if ok else 0
+
+# ---- C04 additions: f-strings with int pieces (spec 'fstring_int'), in-place mutation handed back (spec 'mutating_calls',
+#      function entry 'returns_param'), optional parameter of a mapped callee.  Each case: (source, spec extras, entry extras, accepted?)
+_BOX = tr.Nom("Box", "box")
+_BOXM = {("Box", "put"): dict(code="box_put {0} {v}", ty=_BOX, params=[("v", Z)])}
+_FS = "def f(x):\n    return f'a{x}b{x:06d}'\n"
+_MUT = "def f(x, b):\n    b.put(x)\n    for y in [1, 2]:\n        b.put(v=y)\n"
+C04CASES = {
+    "fstring-int-by-spec": (_FS, dict(fstring_int={"": "dec_ {0}", "06d": "pad6_ {0}"}), dict(params=[("x", "x", Z)], returns=tr.STR), True),
+    "fstring-unlisted-format-spec": (_FS, dict(fstring_int={"": "dec_ {0}"}), dict(params=[("x", "x", Z)], returns=tr.STR), False),
+    "fstring-conversion": ("def f(x):\n    return f'{x!r}'\n", dict(fstring_int={"": "dec_ {0}"}), dict(params=[("x", "x", Z)], returns=tr.STR), False),
+    "fstring-of-list": ("def f(xs):\n    return f'{xs}'\n", dict(fstring_int={"": "dec_ {0}"}), dict(params=[("xs", "xs", List(Z))], returns=tr.STR), False),
+    "fstring-computed-spec": ("def f(x):\n    return f'{x:{x}d}'\n", dict(fstring_int={"": "dec_ {0}"}), dict(params=[("x", "x", Z)], returns=tr.STR), False),
+    "mutating-call-by-spec": (_MUT, dict(methods=_BOXM, mutating_calls={"put": "self"}), dict(params=[("x", "x", Z), ("b", "b", _BOX)], returns=_BOX, returns_param="b"), True),
+    "mutating-call-not-declared": (_MUT, dict(methods=_BOXM), dict(params=[("x", "x", Z), ("b", "b", _BOX)], returns=_BOX, returns_param="b"), False),
+    "optional-param-by-spec": ("def f(x):\n    return g(x)\n", dict(funcs={"g": dict(code="g_ {a} {b}", ty=Z, params=[("a", Z), ("b", Z)], optional={"b": "7%Z"})}), dict(params=[("x", "x", Z)], returns=Z), True),
+    "missing-param-without-default": ("def f(x):\n    return g(x)\n", dict(funcs={"g": dict(code="g_ {a} {b}", ty=Z, params=[("a", Z), ("b", Z)])}), dict(params=[("x", "x", Z)], returns=Z), False),
+}
+for name, (src, extras, entry, ok) in C04CASES.items():
+    d = WORK / ("c04_" + name)
+    d.mkdir(parents=True, exist_ok=True)
+    (d / "m.py").write_text(src)
+    try:
+        g = tr.translate_spec(dict(id="T", source="m.py", module="TGen", link="-", functions=[dict(py="f", gen="f", **entry)], **extras), d)
+        print(f"accepted  {name}" if ok else f"NOT REJECTED {name}:\n{g.text}")
+        bad += 0 if ok else 1
+    except tr.Untranslatable as e:
+        print(f"rejected  {name:28s} {e.reason[:90]}" if not ok else f"NOT ACCEPTED {name}: {e}")
+        bad += 1 if ok else 0
+
+# ---- C20 additions: while-as-fuel (spec `while_fuel`), rng-as-decision-stream (spec `stream`, entries with stateful=True),
+#      l.remove(x), a, b = xs, (x,) * n, (*a, *b), `X is not None and ...` as an expression, narrow_on_assign.
+#      Each case: (source, spec extras, entry extras, accepted?)
+_STREAM = dict(var="s", ty=tr.Nom("stream", "stream"))
+_RNG = tr.Nom("Random", "unit")
+_RNGM = {("Random", "randint"): dict(code="draw_randint {a} {b}", ty=Z, params=[("a", Z), ("b", Z)], stateful=True, idiom="rng-as-decision-stream")}
+_WH = "def f(x):\n    while x > 0:\n        x = x - 1\n    return x\n"
+_G = [("g", "g", _RNG)]
+C20CASES = {
+    "while-with-fuel": (_WH, {}, dict(params=[("x", "x", Z)], returns=Z, while_fuel="fuel"), True),
+    "while-without-fuel": (_WH, {}, dict(params=[("x", "x", Z)], returns=Z), False),
+    "while-break": ("def f(x):\n    while x > 0:\n        x = x - 1\n        if x == 3:\n            break\n    return x\n", {}, dict(params=[("x", "x", Z)], returns=Z, while_fuel="fuel"), False),
+    "while-else": ("def f(x):\n    while x > 0:\n        x = x - 1\n    else:\n        x = 7\n    return x\n", {}, dict(params=[("x", "x", Z)], returns=Z, while_fuel="fuel"), False),
+    "while-return-inside": ("def f(x):\n    while x > 0:\n        if x == 3:\n            return 0\n        x = x - 1\n    return x\n", {}, dict(params=[("x", "x", Z)], returns=Z, while_fuel="fuel"), True),
+    "stream-draw-in-loop": ("def f(g, xs):\n    acc = 0\n    for a in xs:\n        acc += g.randint(0, a)\n    return acc\n", dict(methods=_RNGM), dict(params=_G + [("xs", "xs", List(Z))], returns=Z, stream=_STREAM), True),
+    "stream-draw-in-comprehension": ("def f(g, xs):\n    return sum(g.randint(0, a) for a in xs)\n", dict(methods=_RNGM), dict(params=_G + [("xs", "xs", List(Z))], returns=Z, stream=_STREAM), True),
+    "stream-draw-in-filtered-comprehension": ("def f(g, xs):\n    return sum(g.randint(0, a) for a in xs if a > 0)\n", dict(methods=_RNGM), dict(params=_G + [("xs", "xs", List(Z))], returns=Z, stream=_STREAM), False),
+    "stream-draw-in-ifexp": ("def f(g, x):\n    return g.randint(0, 1) if x > 0 else 0\n", dict(methods=_RNGM), dict(params=_G + [("x", "x", Z)], returns=Z, stream=_STREAM), False),
+    "stream-draw-in-and": ("def f(g, x):\n    return x > 0 and g.randint(0, 1) == 1\n", dict(methods=_RNGM), dict(params=_G + [("x", "x", Z)], returns=BOOL, stream=_STREAM), False),
+    "stream-draw-in-while-test": ("def f(g, x):\n    while g.randint(0, 1) == 1:\n        x = x - 1\n    return x\n", dict(methods=_RNGM), dict(params=_G + [("x", "x", Z)], returns=Z, stream=_STREAM, while_fuel="fuel"), False),
+    "stateful-method-without-stream": ("def f(g, x):\n    return g.randint(0, x)\n", dict(methods=_RNGM), dict(params=_G + [("x", "x", Z)], returns=Z), False),
+    "list-remove": ("def f(xs):\n    xs.remove(3)\n    return len(xs)\n", {}, dict(params=[("xs", "xs", List(Z))], returns=Z), True),
+    "unpack-list-2": ("def f(xs):\n    a, b = xs\n    return a - b\n", {}, dict(params=[("xs", "xs", List(Z))], returns=Z), True),
+    "unpack-list-3": ("def f(xs):\n    a, b, c = xs\n    return a - b\n", {}, dict(params=[("xs", "xs", List(Z))], returns=Z), False),
+    "tuple-repeat": ("def f(x):\n    return len((0,) * x)\n", {}, dict(params=[("x", "x", Z)], returns=Z), True),
+    "list-repeat": ("def f(x):\n    return len([0] * x)\n", {}, dict(params=[("x", "x", Z)], returns=Z), False),
+    "star-concat": ("def f(xs):\n    return len((*xs, *xs))\n", {}, dict(params=[("xs", "xs", List(Z))], returns=Z), True),
+    "star-mixed": ("def f(xs):\n    return len((1, *xs))\n", {}, dict(params=[("xs", "xs", List(Z))], returns=Z), False),
+    "and-narrowing-expression": ("def f(o):\n    b = o is not None and o + 1 > 2\n    return b\n", {}, dict(params=[("o", "o", Opt(Z))], returns=BOOL), True),
+    "or-does-not-narrow-is-not-none": ("def f(o):\n    b = o is not None or o + 1 > 2\n    return b\n", {}, dict(params=[("o", "o", Opt(Z))], returns=BOOL), False),
+    "narrow-on-assign": ("def f(o, x):\n    o = x\n    return o + 1\n", {}, dict(params=[("o", "o", Opt(Z)), ("x", "x", Z)], returns=Z, narrow_on_assign=True), True),
+    "no-narrow-on-assign-by-default": ("def f(o, x):\n    o = x\n    return o + 1\n", {}, dict(params=[("o", "o", Opt(Z)), ("x", "x", Z)], returns=Z), False),
+}
+for name, (src, extras, entry, ok) in C20CASES.items():
+    d = WORK / ("c20_" + name)
+    d.mkdir(parents=True, exist_ok=True)
+    (d / "m.py").write_text(src)
+    try:
+        g = tr.translate_spec(dict(id="T", source="m.py", module="TGen", link="-", functions=[dict(py="f", gen="f", **entry)], **extras), d)
+        print(f"accepted  {name}" if ok else f"NOT REJECTED {name}:\n{g.text}")
+        bad += 0 if ok else 1
+    except tr.Untranslatable as e:
+        print(f"rejected  {name:28s} {e.reason[:90]}" if not ok else f"NOT ACCEPTED {name}: {e}")
+        bad += 1 if ok else 0
+# C17: lambda-as-def — `g = lambda y: e` listed in the spec as 'f.g' is `def g(y): return e`; rejected when g is assigned twice
+C17CASES = {
+    "lambda-as-def": ("def f(x):\n    g = lambda y: y + 1\n    return 0\n", True),
+    "lambda-as-def-assigned-twice": ("def f(x):\n    g = lambda y: y + 1\n    g = lambda y: y + 2\n    return 0\n", False),
+    "lambda-as-def-default-arg": ("def f(x):\n    g = lambda y=1: y + 1\n    return 0\n", False),
+}
+for name, (src, ok) in C17CASES.items():
+    d = WORK / ("c17_" + name)
+    d.mkdir(parents=True, exist_ok=True)
+    (d / "m.py").write_text(src)
+    try:
+        g = tr.translate_spec(dict(id="T", source="m.py", module="TGen", link="-", functions=[dict(py="f.g", gen="g", params=[("y", "y", Z)], returns=Z)]), d)
+        print(f"accepted  {name}" if ok else f"NOT REJECTED {name}:\n{g.text}")
+        bad += 0 if ok else 1
+    except tr.Untranslatable as e:
+        print(f"rejected  {name:28s} {e.reason[:90]}" if not ok else f"NOT ACCEPTED {name}: {e}")
+        bad += 1 if ok else 0
 sys.exit(1 if bad else 0)
